@@ -437,11 +437,27 @@ func (p *Path) union(a, b *Term) {
 	if a.op != OVar || (b.op != OVar && b.op != OConst) || a.w != b.w {
 		return
 	}
+	// the representative must not depend on term ids (they differ between workers and a
+	// donated prefix is replayed by another worker): the later-created variable points to
+	// the earlier one
+	if b.op == OVar && varSeq(a.name) < varSeq(b.name) {
+		a, b = b, a
+	}
 	if p.rep == nil {
 		p.rep = map[*Term]*Term{}
 	}
 	p.rep[a] = b
 	p.canonMemo = map[*Term]*Term{}
+}
+
+// varSeq: the creation number at the end of a variable name ("f64_12" -> 12).
+func varSeq(name string) int {
+	n := 0
+	i := strings.LastIndexByte(name, '_')
+	for _, ch := range name[i+1:] {
+		n = n*10 + int(ch-'0')
+	}
+	return n
 }
 
 // Branch decides a symbolic condition for this path.
